@@ -309,4 +309,68 @@ theorem tls13_connection_exact_displaced (H : Crypto.Prims) (P : Prims) (L : Sea
     secrets hsec k hgen chk chiv cak caiv shk shiv sak saiv hk cls hcls h1 h2 h3 h4 hsc hss hokc hoks hwr hlen
     (released_displaced info c _ hwr hdel) hcausal
 
+-- ====================================================================== 1. causality from the packet order
+/-- Flights alternate, stated on the CAPTURE ORDER of packets: the connection's packets are `A ++ B ++ C` where
+    `A` (the client's first flight) holds client packets only and delivers — in order, any cuts, exact duplicates, any
+    ISN — whole records `recsA`; `B` (the server's first flight) holds server packets only and delivers whole records
+    `recsB`, at least one; `C` is arbitrary. I.e. a flight's segments are all captured, ending on a record boundary,
+    before the first segment of the next flight. -/
+structure FirstFlights (info : Nat → Pipeline.Info) (c : Pipeline.Conn) (recsA recsB : List Bytes) : Prop where
+  split : ∃ A B C, c.pkts = A ++ B ++ C ∧ (∀ p ∈ A, (p.src == c.server) = false) ∧ (∀ p ∈ B, (p.src == c.server) = true) ∧
+    (∃ isn, InOrder isn recsA.flatten ((dirSegs info c.server false A).map Props.C05.wire)) ∧
+    (∃ isn, InOrder isn recsB.flatten ((dirSegs info c.server true B).map Props.C05.wire))
+  wholeA : ∀ r ∈ recsA, WholeRecord r
+  wholeB : ∀ r ∈ recsB, WholeRecord r
+  lenA : recsA.flatten.length ≤ 2 ^ 31
+  lenB : recsB.flatten.length ≤ 2 ^ 31
+  neB : recsB ≠ []
+
+theorem firstFlights_release (info : Nat → Pipeline.Info) (c : Pipeline.Conn) (recsA recsB : List Bytes)
+    (h : FirstFlights info c recsA recsB) :
+    ∃ relA relB relC, connRecs info c = relA ++ relB ++ relC ∧ relA.map (·.1.raw) = recsA ∧ (∀ q ∈ relA, q.2 = false) ∧
+      relB.map (·.1.raw) = recsB ∧ (∀ q ∈ relB, q.2 = true) := by
+  obtain ⟨A, B, C, hp, hA, hB, ⟨isnA, hdA⟩, ⟨isnB, hdB⟩⟩ := h.split
+  obtain ⟨a1, a2⟩ := released_block info c.server (Reassembly.St.init, Reassembly.St.init) A false rfl hA isnA recsA
+    h.wholeA hdA h.lenA
+  have hR := reasmFinal_other info c.server (Reassembly.St.init, Reassembly.St.init) A true (by simpa using hA)
+  obtain ⟨b1, b2⟩ := released_block info c.server (reasmFinal info c.server (Reassembly.St.init, Reassembly.St.init) A) B true
+    (by simpa using hR) hB isnB recsB h.wholeB hdB h.lenB
+  refine ⟨_, _, released info c.server (reasmFinal info c.server (Reassembly.St.init, Reassembly.St.init) (A ++ B)) C,
+    ?_, a1, a2, b1, b2⟩
+  unfold connRecs
+  rw [hp, released_append, released_append]
+
+/-- 1. TLS ≤ 1.2: if flights alternate in the capture order and the client's first flight contains at least one record
+    (the ClientHello) and no ChangeCipherSpec, the release-order hypothesis `Causal12` of `tls12_connection_exact`
+    holds. -/
+theorem causal12_of_packet_order (info : Nat → Pipeline.Info) (c : Pipeline.Conn) (recsA recsB : List Bytes)
+    (h : FirstFlights info c recsA recsB) (hneA : recsA ≠ []) (hccs : ∀ r ∈ recsA, r.head? ≠ some 20) :
+    Causal12 (connRecs info c) := by
+  obtain ⟨relA, relB, relC, hM, a1, a2, b1, b2⟩ := firstFlights_release info c recsA recsB h
+  refine ⟨relA, relB ++ relC, by rw [hM, List.append_assoc], ?_, ?_, ?_⟩
+  · intro hnil; rw [hnil] at a1; exact hneA a1.symm
+  · intro q hq
+    refine ⟨a2 q hq, ?_⟩
+    have : q.1.raw ∈ recsA := by rw [← a1]; exact List.mem_map_of_mem (f := fun q => q.1.raw) hq
+    exact hccs _ this
+  · cases relB with
+    | nil => rw [List.map_nil] at b1; exact absurd b1.symm h.neB
+    | cons q rest => exact ⟨q, rest ++ relC, rfl, b2 q (by simp)⟩
+
+/-- 1. TLS 1.3: if flights alternate and the client's first flight is exactly one record (the ClientHello; no early
+    data), `Causal13` holds. -/
+theorem causal13_of_packet_order (info : Nat → Pipeline.Info) (c : Pipeline.Conn) (chRec : Bytes) (recsB : List Bytes)
+    (h : FirstFlights info c [chRec] recsB) : Causal13 (connRecs info c) := by
+  obtain ⟨relA, relB, relC, hM, a1, a2, b1, b2⟩ := firstFlights_release info c [chRec] recsB h
+  cases relA with
+  | nil => simp at a1
+  | cons q0 ra =>
+    cases ra with
+    | cons _ _ => simp at a1
+    | nil =>
+      cases relB with
+      | nil => rw [List.map_nil] at b1; exact absurd b1.symm h.neB
+      | cons q1 rest =>
+        exact ⟨q0, q1, rest ++ relC, by rw [hM]; rfl, a2 q0 (by simp), b2 q1 (by simp)⟩
+
 end TLX.Props.C01Capstone
